@@ -55,7 +55,7 @@ mod verif_c08_position {
         n
     }
 
-    //@ob id=C08.cpr_location.latitude props=C08 tier=thorough mem=high kind=harness fns=adsb/position.rs:cpr_location,adsb/position.rs:fixed_lat
+    //@ob id=C08.cpr_location.latitude props=C08 tier=dropped mem=high kind=harness fns=adsb/position.rs:cpr_location,adsb/position.rs:fixed_lat
     //@region all 2 x 17-bit CPR latitudes (longitudes arbitrary), both anchor parities, airborne decode, recovered latitudes within 87S..87N: the NL lookup is asked about the two recovered latitudes of the published algorithm (exact zone index j; within 1e-9 deg); None iff the two zone counts differ; else latitude = recovered latitude of the anchor (newer) frame
     #[kani::proof]
     #[kani::unwind(6)]
@@ -89,7 +89,7 @@ mod verif_c08_position {
         kani::cover!(true, "reach_end");
     }
 
-    //@ob id=C08.cpr_location.longitude props=C08 tier=thorough mem=high kind=harness fns=adsb/position.rs:cpr_location,adsb/position.rs:signed_lon,adsb/position.rs:pmod
+    //@ob id=C08.cpr_location.longitude props=C08 tier=dropped mem=high kind=harness fns=adsb/position.rs:cpr_location,adsb/position.rs:signed_lon,adsb/position.rs:pmod
     //@region all 2 x 17-bit CPR longitudes, both anchor parities, every zone count NL 1..59 (one pass per NL; latitudes fixed, they only feed the NL lookup): longitude = 360/n_i * (mod(m, n_i) + lon_i/2^17) wrapped to [-180,180), m the exact integer zone index, n_i = max(NL - i, 1)
     #[kani::proof]
     #[kani::unwind(61)]
